@@ -1,0 +1,17 @@
+//go:build verif
+// +build verif
+
+package js_parser
+
+import (
+	"sort"
+
+	"github.com/evanw/esbuild/internal/sourcemap"
+)
+
+// Exports for the /verif correspondence harness (build tag "verif" only).
+
+// VerifSortMappings runs the sort that ParseSourceMap applies when "needSort" is set.
+func VerifSortMappings(mappings []sourcemap.Mapping) {
+	sort.Stable(mappingArray(mappings))
+}
